@@ -108,10 +108,9 @@ func samePts(a, b []orb.Point) bool {
 
 // checkIndependent: the value a parse function returns belongs to the caller.
 // The result is checked, then its point slices are overwritten one sibling at a
-// time (including the spare capacity an append would use) while all not yet
-// overwritten siblings must keep their values; then everything is overwritten
-// and the same call is repeated: the second result must again be the expected
-// value.
+// time (including the spare capacity an append would use); whether siblings are
+// affected is only counted (layout note). Then everything is overwritten and the
+// same call is repeated: the second result must again be the expected value.
 func checkIndependent(what string, parse func() (orb.Geometry, error), want orb.Geometry) error {
 	r1, err := parse()
 	if err != nil {
@@ -128,11 +127,16 @@ func checkIndependent(what string, parse func() (orb.Geometry, error), want orb.
 	if limit > 6 {
 		limit = 6
 	}
+	// Memory layout of ONE result is not promised by the property: siblings that share a backing array or
+	// spare capacity are counted as a layout note, not reported (soundness rule of round L). What must hold is
+	// that the caller's writes never show up in a later call (checked below).
+	noted := false
 	for k := 0; k < limit; k++ {
 		scribblePts(got[k])
-		for j := k + 1; j < len(got); j++ {
+		for j := k + 1; j < len(got) && !noted; j++ {
 			if !samePts(got[j], exp[j]) {
-				return fmt.Errorf("%s: overwriting point slice %d of the result (and its spare capacity) changed sibling slice %d", what, k, j)
+				stats.Class("layout-note:overwriting one part of a parse result (incl. spare capacity) changed a sibling part")
+				noted = true
 			}
 		}
 	}
